@@ -193,7 +193,7 @@ void SCPI_RegSet(scpi_t * context, scpi_reg_name_t name, scpi_reg_val_t val) {
                     enable = 0xFFFF;
                 }
 
-                scpi_bool_t summary = val & enable;
+                scpi_bool_t summary = (val & enable) != 0;
 
                 name = register_group.parent_reg;
                 val = SCPI_RegGet(context, register_group.parent_reg);
@@ -234,7 +234,7 @@ void SCPI_RegSet(scpi_t * context, scpi_reg_name_t name, scpi_reg_val_t val) {
             case SCPI_REG_CLASS_ENAB:
             {
                 /* enable changed - recompute summary bit of the group in parent register */
-                scpi_bool_t summary = SCPI_RegGet(context, register_group.event) & val;
+                scpi_bool_t summary = (SCPI_RegGet(context, register_group.event) & val) != 0;
 
                 if (register_group.parent_reg == SCPI_REG_NONE) {
                     return;
